@@ -4,6 +4,8 @@
 # runs every registered check (quick) with a frozen analyser binary and reports
 # every check that does not exit 0: each such report is a FALSE ALARM of the
 # machinery (the property still holds) and must be fixed in the checker.
+# REFCHECK_RELATED=1 restricts each patch to its own property and those that
+# read the same packages (a full run takes hours).
 set -u
 export GOFLAGS=-mod=mod GOPROXY=off GOSUMDB=off GOTOOLCHAIN=local GOWORK=off
 base=$(mktemp -d /tmp/refchk.XXXXXX)
@@ -19,7 +21,17 @@ done
 for p in $patches; do
   ( cd "$wt" && git checkout -q -- . && git clean -fdq && git apply "$p" ) || { echo "REFCHECK $p: patch does not apply"; continue; }
   bad=""
-  for id in $props; do
+  sel="$props"
+  if [ -n "${REFCHECK_RELATED:-}" ]; then
+    # only the patch's own property and the properties that read the same packages
+    own=$(basename "$(dirname "$p")"); own=${own%%-*}
+    case "$own" in
+      C01) sel="C01 C07 C08";; C02) sel="C02 C03 C07";; C03) sel="C03 C02 C07 C06";; C04) sel="C04 C05 C07";;
+      C05) sel="C05 C04 C06";; C06) sel="C06 C04 C05";; C07) sel="C07 C01 C02";; C08) sel="C08 C01";;
+      C09) sel="C09 C19 C18";; C18) sel="C18 C09";; C19) sel="C19 C09";; *) sel="$own";;
+    esac
+  fi
+  for id in $sel; do
     out=$(GVERIF_REPO="$wt" GVERIF_HOME="$base/home" "$base/gverif" check -property $id -tier quick 2>&1); rc=$?
     if [ $rc -ne 0 ]; then
       bad="$bad $id(exit=$rc)"
